@@ -325,6 +325,70 @@ def oracle_heavy(case, rec):
         rec.close(h, (A != B).sum() / float(n * (n - 1)), "hamming_distance")
 
 
+def _cliques_in(B, size):
+    """Number of cliques of `size` (2, 3 or 4) nodes in the simple graph B."""
+    B = B.astype(np.int64)
+    if size == 2:
+        return int(B.sum()) // 2
+    if size == 3:
+        return int(np.trace(B @ B @ B)) // 6
+    tot = 0
+    m = len(B)
+    for a in range(m):
+        for b in range(a + 1, m):
+            if B[a, b]:
+                c = np.nonzero(B[a] & B[b])[0]
+                tot += int(B[np.ix_(c, c)].sum()) // 2
+    return tot // 6      # every 4-clique is found once from each of its links
+
+
+def cliquishness_dense(A, order):
+    """Definition as in vp.ref.graph.local_cliquishness, counted by matrix
+    products so that neighbourhoods of 16..39 nodes stay cheap."""
+    from math import comb
+    U = R.sym(A)
+    out = np.zeros(len(U))
+    for i in range(len(U)):
+        nb = np.nonzero(U[i])[0]
+        if len(nb) >= order - 1:
+            out[i] = _cliques_in(U[np.ix_(nb, nb)], order - 1) \
+                / comb(len(nb), order - 1)
+    return out
+
+
+def oracle_dense(case, rec):
+    """Dense graphs on 17..40 nodes: degrees of 16..39, where products like
+    k(k-1)(k-2)(k-3) leave the small integer types of the kernels."""
+    ok, res = rec.call("construct", make, case)
+    if not ok:
+        return
+    net, A = res
+    classify(A, rec, False)
+    U = R.sym(A)
+    k = U.sum(axis=1)
+    rec.label("max_degree>=16" if k.max() >= 16 else "max_degree<16")
+    rec.label("max_degree>=34" if k.max() >= 34 else "max_degree<34")
+    if len(U) <= 9:
+        for o in (4, 5):    # the fast count against the literal definition
+            rec.close(cliquishness_dense(A, o), R.local_cliquishness(A, o),
+                      "selfcheck_reference_cliquishness%d" % o)
+    plan = Plan(rec, case)
+    plan.cmp(net, "local_cliquishness", R.local_clustering(A),
+             "cliquishness3", args=(3,))
+    plan.cmp(net, "local_cliquishness", cliquishness_dense(A, 4),
+             "cliquishness4", args=(4,))
+    plan.cmp(net, "local_cliquishness", cliquishness_dense(A, 5),
+             "cliquishness5", args=(5,))
+    plan.cmp(net, "degree", k, "degree")
+    plan.cmp(net, "local_clustering", R.local_clustering(A),
+             "local_clustering")
+    plan.cmp(net, "transitivity", R.transitivity(A), "transitivity")
+    plan.cmp(net, "matching_index", R.matching_index(A), "matching_index")
+    plan.run()
+    if k.max() >= 16:
+        rec.nontrivial(True)
+
+
 # -------------------------------------------------------------- generators
 
 def _dyadic_w(n, salt):
@@ -378,6 +442,23 @@ def heavy_cases(draw, n_min=3, n_max=13):
             "W": draw(st.one_of(st.none(), G.link_attr(n, False)))}
 
 
+@st.composite
+def dense_cases(draw):
+    n = draw(st.one_of(st.integers(5, 9), st.integers(17, 40),
+                       st.integers(17, 40)))
+    pairs = [(i, j) for i in range(n) for j in range(i + 1, n)]
+    kind = draw(st.integers(0, 3))
+    if kind == 0:
+        gone = set()                      # complete graph
+    else:
+        frac = (0.05, 0.15, 0.3)[kind - 1]
+        gone = set(draw(st.lists(st.integers(0, len(pairs) - 1),
+                                 max_size=int(frac * len(pairs)) + 1)))
+    edges = [list(p) for i, p in enumerate(pairs) if i not in gone]
+    return {"g": {"n": n, "directed": False, "edges": edges}, "w": None,
+            "W": None}
+
+
 def enum_small_heavy(tier):
     for idx, g in enumerate(G.all_small_graphs(5, 0)):
         yield {"g": g, "w": None,
@@ -395,4 +476,6 @@ SUBCHECKS = [
              quick=(4, 15), thorough=(8, 300)),
     SubCheck("random_heavy", oracle_heavy, gen=heavy_cases,
              quick=(8, 100), thorough=(12, 1500)),
+    SubCheck("random_dense", oracle_dense, gen=dense_cases,
+             quick=(8, 12), thorough=(12, 200)),
 ]
